@@ -53,14 +53,23 @@ impl<V: Debug> Debug for Displaced<V> {
     }
 }
 
-#[derive(Clone)]
+/// `entries` is never dropped: dropping a map *leaks* its contents.  Drop glue over a slice whose
+/// length CBMC cannot resolve to a constant (e.g. the bindings of a popped stack frame after a path
+/// merge) unwinds to the bound on every path and was measured to push session harnesses past 5 GB;
+/// leaking only changes `Rc` strong counts (see `Displaced`).
 pub struct HashMap<K, V> {
-    entries: Vec<(K, V)>,
+    entries: ManuallyDrop<Vec<(K, V)>>,
+}
+
+impl<K: Clone, V: Clone> Clone for HashMap<K, V> {
+    fn clone(&self) -> Self {
+        HashMap { entries: ManuallyDrop::new((*self.entries).clone()) }
+    }
 }
 
 impl<K, V> Default for HashMap<K, V> {
     fn default() -> Self {
-        HashMap { entries: Vec::new() }
+        HashMap { entries: ManuallyDrop::new(Vec::new()) }
     }
 }
 
@@ -244,7 +253,7 @@ impl<K, V> IntoIterator for HashMap<K, V> {
     type Item = (K, V);
     type IntoIter = std::vec::IntoIter<(K, V)>;
     fn into_iter(self) -> Self::IntoIter {
-        self.entries.into_iter()
+        ManuallyDrop::into_inner(self.entries).into_iter()
     }
 }
 
